@@ -10,7 +10,7 @@ from __future__ import annotations
 import copy
 import json
 import os
-from typing import Dict, List, Optional
+from typing import Any, Dict, List, Optional
 
 import yaml
 
@@ -26,6 +26,15 @@ def double(v):
 
 def add3(a, b):
     return a * 1000 + b
+
+
+def sum_group(d):
+    d = d.as_dict() if hasattr(d, "as_dict") else d
+    return sum(v for v in d.values() if isinstance(v, int))
+
+
+def sum_list(v):
+    return sum(v or [])
 
 
 def to_len(d: dict):
@@ -63,6 +72,20 @@ def build(shape, eoe=False):
         p.add_argument("--n", type=int)
         p.link_arguments("g", "n", compute_fn=to_len)
         links.append((["g"], "n", "ns2dict-len", "plain"))
+        p.add_argument("--gs", type=int)
+        p.link_arguments("g", "gs", compute_fn=sum_group)
+        links.append((["g"], "gs", sum_group, "plain"))
+        p.add_argument("--sizes", type=List[int], default=[1, 2])
+        p.add_argument("--nsz", type=int)
+        p.link_arguments("sizes", "nsz", compute_fn=sum_list)
+        links.append((["sizes"], "nsz", sum_list, "plain"))
+        # targets that keep a mapping as it is given (no type / Any): the group arrives as it is, whatever the target held
+        p.add_argument("--u")
+        p.link_arguments("g", "u")
+        links.append((["g"], "u", "group-as-is", "plain"))
+        p.add_argument("--w", type=Any)
+        p.link_arguments("g", "w")
+        links.append((["g"], "w", "group-as-is", "plain"))
     if "class_target" in shape:
         p.add_argument("--m", type=zoo.Base, default=lazy_instance(zoo.SubA, a=7))
         p.link_arguments("a", "m.init_args.a")
@@ -114,6 +137,8 @@ def expected_value(cfg, sources, fn):
         vals.append(v)
     if fn == "ns2dict":
         return vals[0].as_dict()
+    if fn == "group-as-is":
+        return vals[0].as_dict()
     if fn == "ns2dict-len":
         return to_len(vals[0].as_dict())
     if fn is None:
@@ -159,6 +184,9 @@ def check_result(ctx, p, links, cfg, w):
                 ctx.violation("link", f"target-missing/{kind}", dict(w, target=target, config=short(cfg, 600)))
                 return False
             got = cfg[target]
+        if fn == "group-as-is" and hasattr(got, "as_dict"):
+            got = got.as_dict()
+            ctx.count("st.group_source_into_untyped_target")
         if same(got, exp):
             ctx.violation("link", f"target-differs-from-function-of-sources/{kind}/{'fn' if callable(fn) else ('identity' if fn is None else fn)}", dict(w, target=target, sources={s: short(cfg.get(s)) for s in sources}, expected=short(exp), got=short(got)))
             return False
@@ -256,7 +284,9 @@ def case_flat(ctx, i, rng):
     if rng.random() < 0.5:
         for sources, target, fn, kind in links:
             if kind in ("plain", "plain-from-optional-class") and rng.random() < 0.6:
-                cfgd[target] = {"b": 7777, "t": 7777, "d": {"zz": 1}, "n": 7777, "k": 7777, "tk": "user-given"}.get(target, 7777)
+                cfgd[target] = {"b": 7777, "t": 7777, "d": {"zz": 1}, "n": 7777, "k": 7777, "tk": "user-given", "u": {"old": 1, "x": 7777}, "w": {"old": 1, "x": 7777}}.get(target, 7777)
+                if target in ("u", "w"):
+                    ctx.count("st.mapping_supplied_for_untyped_target_of_group_link")
                 tgt_supplied = target
             if kind == "init_arg" and rng.random() < 0.5:
                 cfgd.setdefault("m", {"class_path": "vf.fixtures.zoo.SubA"}).setdefault("init_args", {})["a"] = 7777
@@ -294,8 +324,25 @@ def case_flat(ctx, i, rng):
     cfg = o.value
     if tgt_supplied:
         ctx.count("st.target_value_supplied")
-    if check_result(ctx, p, links, cfg, w) and not w.pop("_skipped", False):
+    ok = check_result(ctx, p, links, cfg, w)
+    if ok and not w.pop("_skipped", False):
         check_dump(ctx, p, links, cfg, w)
+    if ok and "group_src" in shape and rng.random() < 0.6:
+        # the program edits sources inside the configuration it got back and parses that again: targets follow the new values
+        edited = cfg
+        edited["g.x"] = cfg["g.x"] + 1000
+        if isinstance(edited.get("sizes"), list):
+            edited["sizes"].append(500)
+        o3 = call(p.parse_object, edited) if rng.random() < 0.6 else call(p.parse_string, json.dumps({"g": {"x": edited["g.x"], "y": edited["g.y"]}, "sizes": edited["sizes"], "a": edited["a"]}))
+        ctx.count("mon.reparse_after_editing_sources_in_the_result")
+        if o3.accepted:
+            w3 = dict(w, step="result edited in place (g.x += 1000, sizes.append(500)) and parsed again")
+            if o3.value["g.x"] != edited["g.x"]:
+                ctx.violation("link", "edited-source-lost-on-reparse", dict(w3, got=short(o3.value, 400)))
+            else:
+                check_result(ctx, p, links, o3.value, w3)
+        elif o3.rejected:
+            ctx.violation("link", "valid-inputs-rejected/reparse-of-edited-result", dict(w, outcome=o3.brief()))
     # command line option of a plain target must be rejected
     for sources, target, fn, kind in links:
         if kind.startswith("plain"):
